@@ -3,8 +3,9 @@
   of Props/C01Ieee.lean, weakened to a statement about `optimized_len` and ONE segment of the path, and the reason why
   order/monotonicity laws alone cannot remove it.
 
-  The natural length is `((opt + l₁) + l₂) + … + lₙ` (`C16.natTotal`), `opt = ((0 + t₁) + t₂) + … + tₘ` with
-  `tₖ = fl(Lₖ − Dₖ)` (`Lₖ ≥ 0` the removed length, `Dₖ` the kept chord), and every chord `Dₖ` is one of the `lᵢ`.
+  The natural length is `((opt + l₁) + l₂) + … + lₙ` (`C16.natTotal`), `opt = ((0 + t₁) + t₂) + … + tₘ` (`simplifyLoop_optLen`, Props/C01IeeeSurplusLoop.lean) with
+  `tₖ = fl(Lₖ − Dₖ)` (`Lₖ ≥ 0` the removed length, `Dₖ` the kept chord); by the code every chord `Dₖ` is one of the `lᵢ` (read off
+  curve.rs; that link through `dedupJoint` is NOT formalised).
 
   * **`natTotal_notNeg_of_debt`** — if `opt` is a NaN, `≥ 0`, or `≥ −D` for ONE segment length `D` of the path, the natural
     length is a NaN or `≥ 0` (every `f32` path, NaN / infinite coordinates included). Proof: adding lengths never
